@@ -268,7 +268,16 @@ def matrix_package(quick: bool):
                                           ("byCount", N("MxLookup", (N("MxCount"), P("int32")))), ("aSt", N("MxGMap", (P("string"), N("MxRec")))), ("aInt", N("MxGMap", (P("uint16"), P("string")))),
                                           ("a2St", N("MxGMapOfInt", (P("string"),))), ("a2Long", N("MxGMapOfInt", (P("int64"),))), ("items", S(N("MxLookup", (P("string"), Opt(P("int32")))))),
                                           ("inUnion", U((("m", N("MxGMap", (P("string"), P("int32")))), ("n", P("int32"))), False, True)), ("vec", V(N("MxGMap", (N("MxLabel"), P("int32")))))]))
-    return Pkg("Matrix", [Rc, Rc2, E1, F1, Gen, AllOpt, Lookup, GMap, GMap2, Al("MxLabel", P("string")), Al("MxCount", P("uint16")), Al("MxRemark", Opt(P("string"))),
+    # untagged unions with a case that is written as a JSON object (record, string-keyed map) whose value has exactly one member, named like one of the
+    # union's tags: a reader that mistakes the bare object for the tagged form `{"<tag>": value}` returns another case
+    Thr = Rec("MxThreshold", [("level", P("float64"))])
+    OneOpt = Rec("MxOneOpt", [("note", Opt(P("string"))), ("level", Opt(P("float64"))), ("rec", Opt(P("int32")))])
+    UTrig = U((("level", P("float64")), ("threshold", N("MxThreshold"))), False, True)
+    UTitle = U(((None, N("MxAttrs")), (None, P("string"))))
+    UOpts = U((("note", P("string")), ("rec", N("MxOneOpt"))), False, True)
+    protos.append(Proto("MxTagLike", [("trigger", UTrig), ("title", UTitle), ("titles", V(UTitle)), ("opts", S(UOpts)), ("byKey", M(P("string"), UTitle)), ("held", N("MxTagHolder"))]))
+    TagHolder = Rec("MxTagHolder", [("t", UTrig), ("a", UTitle), ("o", U((("note", P("string")), ("rec", N("MxOneOpt"))), True, True))])
+    return Pkg("Matrix", [Thr, OneOpt, TagHolder, Al("MxAttrs", M(P("string"), P("string"))), Rc, Rc2, E1, F1, Gen, AllOpt, Lookup, GMap, GMap2, Al("MxLabel", P("string")), Al("MxCount", P("uint16")), Al("MxRemark", Opt(P("string"))),
                           Al("MxNullU", U(((None, P("int32")), (None, P("string"))), True)), Al("MxRemark2", N("MxRemark")), Aliased, ArrRec, FM, FO, FZ, FlagRec] + protos)
 
 
@@ -297,6 +306,13 @@ def run_matrix(ctx, quick):
                 empty = [None, None, None]
                 full = [(0, "x"), (0, k), (1, "s")]
                 vals = [empty, (0, empty) if k % 2 == 0 else None, [empty, full, empty][: 1 + k % 3], [empty, full][: 1 + k % 2], (0, empty) if k % 3 else (1, "str"), [["k1", empty], ["k2", full]]]
+            if proto.name == "MxTagLike":
+                attrs = [[["string", "utf-8"]], [["MxAttrs", "none"]], [], [["string", "a"], ["MxAttrs", "b"]], [["other", "x"]], [["title", "t"]]]
+                titles = [(0, a) for a in attrs] + [(1, "plain"), (1, "string")]
+                opts = [(1, [(0, "n"), None, None]), (1, [None, (0, f64(1.0)), None]), (1, [None, None, (0, 7)]), (1, [None, None, None]), (0, "note"), (1, [(0, "a"), (0, f64(2.0)), None])]
+                trig = [(1, [f64(2.5)]), (0, f64(2.5))][k % 2]
+                vals = [trig, titles[k % len(titles)], titles[k % 3:], opts[k % 2:], [["string", titles[0]], ["k", titles[k % len(titles)]], ["MxAttrs", titles[1]]],
+                        [(1, [f64(-1.0)]), titles[(k + 1) % 2], None if k % 3 == 0 else opts[k % 4]]]
             if proto.name == "MxFlagValues":
                 lo, hi = k * 43, min(256, k * 43 + 43)
                 vals = [list(range(lo, hi)), list(range(lo, hi)), list(range(lo, hi)), [[i, (None if i % 3 == 0 else (0, (i * 5) % 256)), (i * 11) % 256] for i in range(lo, hi)],
